@@ -39,7 +39,7 @@ def proof_side(ctx, prop, extra_targets=()):
             obligations = len(vlib.prop_theorems(prop))
         except OSError:
             obligations = 0
-    hits = vlib.grep_forbidden()
+    hits = vlib.grep_forbidden(prop)
     for h in hits:
         broken.append("forbidden token: " + h)
     model_ok = os.path.exists(vlib.model_exe(prop)) and (res["ok"] or model_built(res))
